@@ -27,6 +27,11 @@ def entry (m : Kernel V) (i j : Nat) : V := m.k (m.x i) (m.x j)
 def row (m : Kernel V) (i start stop : Nat) : List V :=
   (List.range (stop - start)).map fun d => m.entry i (start + d)
 def flip (m : Kernel V) (i j : Nat) : Kernel V := { m with x := swapVec m.x i j }
+/-- `matrix(storage)` = `calculateRegularizedKernelMatrix(kernel, m_data, storage)`: the Gram matrix
+of the data set in its ORIGINAL order (the pointer vector `x` is not consulted) — finding K2.
+`honoursFlips` selects the repaired variant (evaluate under the current order). -/
+def matrix (m : Kernel V) (honoursFlips : Bool) (i j : Nat) : V :=
+  if honoursFlips then m.entry i j else m.k i j
 end Kernel
 
 /-- `RegularizedKernelMatrix`: kernel matrix plus a diagonal modification -/
@@ -48,6 +53,9 @@ def row (m : Regularized V) (k start stop : Nat) : List V :=
   else r
 def flip (m : Regularized V) (i j : Nat) : Regularized V :=
   { base := m.base.flip i j, diag := swapVec m.diag i j }
+/-- `matrix`: `m_matrix.matrix(storage)`, then `storage(k,k) += m_diagMod(k)` (the CURRENT diagonal) -/
+def matrix (m : Regularized V) (hf : Bool) (i j : Nat) : V :=
+  if i = j then m.base.matrix hf i j + m.diag i else m.base.matrix hf i j
 end Regularized
 
 /-- `ModifiedKernelMatrix`: entries scaled by one of two factors depending on label equality -/
@@ -68,6 +76,8 @@ def row (m : Modified V) (i start stop : Nat) : List V :=
   (List.range (stop - start)).map fun d => m.base.entry i (start + d) * m.modifier i (start + d)
 def flip (m : Modified V) (i j : Nat) : Modified V :=
   { m with base := m.base.flip i j, labels := swapVec m.labels i j }
+/-- `matrix`: `m_matrix.matrix(storage)`, then `storage(i,j) *= modifier` (the CURRENT labels) -/
+def matrix (m : Modified V) (hf : Bool) (i j : Nat) : V := m.base.matrix hf i j * m.modifier i j
 end Modified
 
 /-- `PrecomputedMatrix`: all entries stored; flips swap rows and columns of the store -/
@@ -84,6 +94,10 @@ def row (p : Precomputed V) (k start stop : Nat) : List V :=
 def flip (p : Precomputed V) (i j : Nat) : Precomputed V :=
   let rowsSwapped : Nat → Nat → V := fun a b => p.m (swapIdx i j a) b
   { m := fun a b => rowsSwapped a (swapIdx i j b) }
+/-- `row(k,begin,end)` (pointer overload): `&matrix(k,begin)` — the values from column `begin` on.
+(`CachedMatrix::row(k,start,end)` returns the pointer to column 0 whatever `start` is; all callers
+in the library pass `start = 0`, where the two conventions coincide.) -/
+def rowPtr (p : Precomputed V) (k start stop : Nat) : List V := p.row k start stop
 end Precomputed
 
 /-- `BlockMatrix2x2`: the 2n×2n matrix `[[K,K],[K,K]]` through an index mapping -/
@@ -131,6 +145,52 @@ variable {V : Type}
 def init (baseEntry : Nat → Nat → V) (n cacheBytes sizeofT : Nat) : Partly V :=
   { baseEntry := baseEntry, rows := min (cacheBytes / (n * sizeofT)) n, cached := baseEntry }
 def entry (p : Partly V) (i j : Nat) : V := if i < p.rows then p.cached i j else p.baseEntry i j
+/-- `row(k, storage)`: always the whole row (`n` = `m_cachedMatrix.size2()`), from the stored rows or
+the base matrix; the class has neither a ranged `row` nor `flipColumnsAndRows` -/
+def row (p : Partly V) (n k : Nat) : List V :=
+  if k < p.rows then (List.range n).map fun j => p.cached k j
+  else (List.range n).map fun j => p.baseEntry k j
 end Partly
+
+/-- `GaussianKernelMatrix` over points with inner products `ip` (original indices); `post` is
+`d ↦ exp(-gamma·d)`; `norms` is the vector `m_squaredNorms`, swapped alongside `x` -/
+structure Gaussian (V : Type) where
+  ip    : Nat → Nat → V
+  x     : Nat → Nat
+  norms : Nat → V
+  post  : V → V
+
+namespace Gaussian
+variable {V : Type} [Add V] [Sub V] [Mul V] [OfNat V 2]
+def init (ip : Nat → Nat → V) (post : V → V) : Gaussian V :=
+  { ip := ip, x := id, norms := fun i => ip i i, post := post }
+/-- `m_squaredNorms(i) - 2*inner_prod(*x[i],*x[j]) + m_squaredNorms(j)` -/
+def distance (m : Gaussian V) (i j : Nat) : V := m.norms i - 2 * m.ip (m.x i) (m.x j) + m.norms j
+def entry (m : Gaussian V) (i j : Nat) : V := m.post (m.distance i j)
+def row (m : Gaussian V) (i start stop : Nat) : List V :=
+  (List.range (stop - start)).map fun d => m.post (m.distance i (start + d))
+/-- `matrix`: row by row (honours flips) -/
+def matrix (m : Gaussian V) (n i : Nat) : List V := m.row i 0 n
+def flip (m : Gaussian V) (i j : Nat) : Gaussian V :=
+  { m with x := swapVec m.x i j, norms := swapVec m.norms i j }
+end Gaussian
+
+/-- `ExampleModifiedKernelMatrix`: `K(x_i,x_j)·(1/s_i)·(1/s_j)`; `scale i` is `1/s_i`.
+`swapsScale` = whether `flipColumnsAndRows` also exchanges the scaling coefficients
+(read off the source on every run; `false` on the tree with finding F-C09-1). -/
+structure ExMod (V : Type) where
+  k     : Nat → Nat → V
+  x     : Nat → Nat
+  scale : Nat → V
+
+namespace ExMod
+variable {V : Type} [Mul V]
+def init (k : Nat → Nat → V) (scale : Nat → V) : ExMod V := { k := k, x := id, scale := scale }
+def entry (m : ExMod V) (i j : Nat) : V := m.k (m.x i) (m.x j) * m.scale i * m.scale j
+def row (m : ExMod V) (i start stop : Nat) : List V :=
+  (List.range (stop - start)).map fun d => m.entry i (start + d)
+def flip (swapsScale : Bool) (m : ExMod V) (i j : Nat) : ExMod V :=
+  { m with x := swapVec m.x i j, scale := if swapsScale then swapVec m.scale i j else m.scale }
+end ExMod
 
 end SharkVerif.KM
